@@ -871,7 +871,7 @@ def rand_sched(rng, tids, n):
 
 
 def rand_case(rng):
-    clean = rng.random() < 0.5
+    clean = rng.random() < 0.6
     n = rng.randint(1, 5)
     ids = list(range(n))
     mods = []
@@ -947,7 +947,7 @@ def graph_cases(n, orders, rng=None, sample=None):
 
 def gen_cases(seed, tier):
     rng = random.Random(seed * 1000003 + 15)
-    n = {'quick': 2600, 'thorough': 40000, 'search': 40000}[tier]
+    n = {'quick': 3400, 'thorough': 40000, 'search': 40000}[tier]
     cases = [rand_case(rng) for _ in range(n)]
 
     def all_orders(k, mask):
